@@ -14,7 +14,7 @@ reg(Spec("C15", "c15_timer.cpp", needs=("lib",),
               "Skip(k) with k resolved against the horizon the timer reports: 0, 1, h-1, h, h/2, random) on the real "
               "Teakra::Timer; oracle = cycle-exact model + twin doing k x Tick() for every Skip(k). core_timing_pair (20% of the cases): two "
               "timers registered on one CoreTiming, configure/restart/pause/tick/CoreTiming::Skip(max): the returned k must be min(max, both "
-              "horizons) and both timers must equal a twin pair advanced by k x CoreTiming::Tick(). Non-trivial = the "
+              "horizons) and both timers must equal a twin pair advanced by k x CoreTiming::Tick(). timer_facade (2% of the cases): both timers through MMIO on a Teakra whose DSP idles (start, configuration word with restart strobe, event write, Run): counter read-back and ICU lines 0xA / 0x9 vs the model. Non-trivial = the "
               "history contains a Skip(k>=1) on a running timer or a 1->0 crossing; distinct by hash of the op list.",
          assumptions=["time scale stays 0 and count mode < 4 (other values are deliberate ASSERTs in Tick/Restart)",
                       "Restart in free-running mode is outside the property's statement: reload or no-op are both accepted",
@@ -26,7 +26,7 @@ reg(Spec("C16", "c16_btdmp.cpp", needs=("lib",),
               "aimed at frame boundaries, Skip(k) with k in {0,1,h-1,h,random} against the reported horizon) on the real "
               "Teakra::Btdmp with a period chosen per history from {1,2,3,7,1000,4096,65535} U small U uniform; oracle = "
               "FIFO/frame-clock model + twin doing k x Tick() for every Skip(k) + conservation of words after a final drain. "
-              "core_timing_btdmp (20% of the cases): the port next to a free-running timer on one CoreTiming; CoreTiming::Skip(max) vs that many CoreTiming::Tick() on a twin (frames per operation, flags, interrupts), also while transmitting with an empty queue. Non-trivial = at least one frame carrying a real (non-filler) word; distinct by hash of (period, op list).",
+              "core_timing_btdmp (20% of the cases): the port next to a free-running timer on one CoreTiming; CoreTiming::Skip(max) vs that many CoreTiming::Tick() on a twin (frames per operation, flags, interrupts), also while transmitting with an empty queue. core_timing_btdmp also runs without an audio callback installed; btdmp_facade (10% of the cases): both ports through MMIO on a Teakra whose DSP idles (send, flush, enable, Run up to three periods): port 0's frames, both status words and ICU line 0xB vs two instances of the model. Non-trivial = at least one frame carrying a real (non-filler) word; distinct by hash of (period, op list).",
          assumptions=["period >= 1 and fixed before the first tick (not reachable from MMIO; the source calls it a placeholder)",
                       "the frame clock only advances while transmission is enabled and keeps its phase across disable/enable",
                       "per skip at most min(h, 3*period+5, 20000) cycles so the ticking twin stays affordable"]))
@@ -66,7 +66,7 @@ reg(Spec("C02", "c02_decode.cpp", needs=("shim", "optable"), custom="exhaustive"
               "fetch from A+1, and execution never trips the decoder's own consistency assertion; O5 the disassembler's text / length for "
               "(word, second word) is the same right after another second word of the same opcode as after another opcode; O6 a two-word "
               "opcode executed twice at one address with different second words behaves, the second time, as on a second core that never "
-              "ran the first; O4 every bit declared Unused<> in the table text, flipped, on 32/128 generated states: same text, same "
+              "ran the first; one full pass of the project's test generator: no undefined word, a second program word only for two-word forms; O4 every bit declared Unused<> in the table text, flipped, on 32/128 generated states: same text, same "
               "execution, and declared set == set of bits the recorder shows to be don't-care. Non-trivial = defined word; distinct = the word.",
          assumptions=["control-transfer handlers (br, brr, call*, ret*, movpdw, mov_pc) are exempt from the pc-advance clause, not from the fetch clause",
                       "instructions ending in Unimplemented / deliberate ASSERT make no length claim",
@@ -88,7 +88,8 @@ reg(Spec("C20", "c20_words.cpp", needs=("shim", "optable"), custom="exhaustive",
               "register states through RegisterState::Set<>/Get<>: resulting state (every field incl. shadow banks) and read-back "
               "equal the golden layout model, 44 dual-view bit pairs + the TeakLite limit flag agree, Set(Get()) is the identity "
               "without an active loop; D1i sampled values through 'mov #imm16, W', 'push W', 'pop W', 'mov b0l, W' and 'mov #imm5, icr' "
-              "(low five bits replaced, loop state untouched unless bit 4 is written 1); D2: every first word with ar/arp "
+              "(low five bits replaced, loop state untouched unless bit 4 is written 1); D3 after any instruction (every defined first word, quick: "
+              "a quarter of them) all 19 words read through the real accessor equal the layout applied to the resulting state; D2: every first word with ar/arp "
               "operands x 96 / 512 generated ar/arp words: register moved and cells accessed by the interpreter equal what the "
               "annotated disassembly names; D2m: the same cases under a generated addressing configuration (both cmd modes, modulo "
               "/ bit reversal / end pointers / 7- and 16-bit steps, registers at buffer edges): every register named with a step "
@@ -100,7 +101,7 @@ reg(Spec("C20", "c20_words.cpp", needs=("shim", "optable"), custom="exhaustive",
                       "steps ++2* / --2* have no plain counterpart and are counted, not compared",
                       "forms naming the same register twice and bkrepsto/bkreprst (frame pointer moves by the frame size) are exempt from the step clause"]))
 
-reg(Spec("C03", "c03_alu.cpp", needs=("shim", "optable"),
+reg(Spec("C03", "c03_alu.cpp", needs=("shim", "optable_ref"),
          cases={"quick": 40000, "thorough": 700000},
          rule="first word drawn from the ALU families (alm/alm_r6/alu with or,and,xor,add,addh,addl,sub,subh,subl,cmp,cmpu; or_, "
               "and_, add, sub, add_p1, sub_p1, cmp*, moda not/neg/rnd/clr/clrr/inc/dec/copy, mov acc, lim, movr), stratified "
@@ -108,13 +109,13 @@ reg(Spec("C03", "c03_alu.cpp", needs=("shim", "optable"),
               "accumulators / 16-bit operands, sata in {0,1}, all ten flags random, operand cells poked; expected state built by "
               "the independent exact-arithmetic model; compared on every field (frame condition) + no memory write. Non-trivial "
               "= an accumulator or flag changed; distinct by hash(opcode, second word, state).",
-         assumptions=["addressing pinned to the linear case (modulo, bit reversal, end-pointer, stp16 off): stepping is C10's subject",
+         assumptions=["which operation a first word names is read from the frozen reference's decode table (/verif/ref), not from the table under test (also C04, C08, C09, C10)", "addressing pinned to the linear case (modulo, bit reversal, end-pointer, stp16 off): stepping is C10's subject",
                       "product shifter neutral (ps=0): product reads are C04's subject", "no active loop, no pending interrupt",
                       "bitwise forms (or/and/xor/not, 3-operand or/and) do not saturate on write: as those forms define",
                       "irregular forms modelled as the source documents them: and #imm8 (bits 8-15 kept), 16-bit movr (carry from bit 16, fv cleared)",
                       "out of model (left to C01): clr/clrr register pairing, movr through ar words, alm with 40-bit operand for ops other than or/and/xor/add/cmp/sub"]))
 
-reg(Spec("C04", "c04_mulshift.cpp", needs=("shim", "optable"),
+reg(Spec("C04", "c04_mulshift.cpp", needs=("shim", "optable_ref"),
          cases={"quick": 40000, "thorough": 700000},
          rule="first word drawn from the multiply / MAC / product-read / product-sum / shift / rotate / normalize / exponent "
               "families (register and [Rn] forms), stratified by (form, operation); state expanded from a rapidcheck-generated "
@@ -128,7 +129,7 @@ reg(Spec("C04", "c04_mulshift.cpp", needs=("shim", "optable"),
                       "a byte selected by the half-word mode is a non-negative 8-bit factor",
                       "out of model (left to C01/C20): forms addressed through ar/arp words, push/pop Px (C08), CodebookSearch, vtr side effects"]))
 
-reg(Spec("C10", "c10_addr.cpp", needs=("shim", "optable"),
+reg(Spec("C10", "c10_addr.cpp", needs=("shim", "optable_ref"),
          cases={"quick": 40000, "thorough": 600000},
          rule="addr_step: one instruction that post-modifies an address register (modr, modr_dmod, modr_i2/d2[_dmod], the arp-driven "
               "modr_e/dmod forms reaching all eight step kinds, and ten load/store/ALU forms through [Rn]step), form-stratified; state "
@@ -137,7 +138,8 @@ reg(Spec("C10", "c10_addr.cpp", needs=("shim", "optable"),
               "register afterwards and data cell accessed vs the independent model. ar_step: the same for every form addressed through "
               "ar/arp words (all table entries with ArRn/ArStep/ArpRn/ArpStep operands except the bkrep frame-pointer forms, form-stratified): "
               "the annotated disassembler names registers, steps and modulo-disable flags (dmod, dmodi/j, e/d-mod), each named register "
-              "afterwards vs the model, and (forms without an offset) every data access goes to the pre-step value of a named register, "
+              "afterwards vs the model (rn_step: the same for every form that names its address register(s) directly -- Rn / R0123 / R45 "
+              "with a step, the implicit r0 of the max/min forms -- incl. the two-register multiply forms), and (forms without an offset) every data access goes to the pre-step value of a named register, "
               "bit-reversed where configured; a +s step whose configured value is 0 never moves the register, modulo or not. modulo_walk: 2*(mod+1)+3 consecutive +1 / -1 / "
               "mixed steps for generated (unit, mod, cmd, start): cyclic successor, stays in buffer, alignment bits fixed, one visit per "
               "cell per lap. Non-trivial = register changed and the case is inside the model; distinct by hash(opcode, state).",
@@ -145,7 +147,7 @@ reg(Spec("C10", "c10_addr.cpp", needs=("shim", "optable"),
                       "outside the buffer and the 9-bit narrowing of 16-bit steps are out of model (left to C01)",
                       "the data address 0xFFFF (the single MMIO cell of the test core) is avoided"]))
 
-reg(Spec("C08", "c08_stack.cpp", needs=("shim", "optable"),
+reg(Spec("C08", "c08_stack.cpp", needs=("shim", "optable_ref"),
          cases={"quick": 30000, "thorough": 500000},
          rule="inverse pairs executed on the real core from states expanded from a rapidcheck-generated 64-bit value (sat = sata = 1, "
               "no active loop, nothing pending): call form {call, callr, calla axl, calla ax} x condition x return form {ret, rets "
@@ -160,7 +162,7 @@ reg(Spec("C08", "c08_stack.cpp", needs=("shim", "optable"),
                       "pusha/popa restore the 32-bit view; the whole accumulator is required back only when it fits 32 bits",
                       "operands the source itself rejects (pc, undefined ArArpSttMod codes) and whole accumulators through a 16-bit push are outside 'pushable'"]))
 
-reg(Spec("C09", "c09_loops.cpp", needs=("shim", "optable"),
+reg(Spec("C09", "c09_loops.cpp", needs=("shim", "optable_ref"),
          cases={"quick": 4000, "thorough": 80000},
          rule="loop_unroll: programs generated as a small AST (straight-line one/two-word instructions, rep, bkrep nested up to four "
               "levels, counts from an immediate / r5 / r6, all counts 0..40 + {255,256,0x7FFF,0xFFFF} + uniform, dynamic size <= ~4096 "
@@ -169,7 +171,7 @@ reg(Spec("C09", "c09_loops.cpp", needs=("shim", "optable"),
               "sequence that steps down by one per iteration and ends at 0, with exactly N+1 iterations; the block-repeat variant also "
               "inside 1..3 enclosing two-pass block repeats (counter read at nesting depth 1..4), counts from an immediate, r5, r6 or "
               "the low / high half of b0 preset to a value wider than 32 bits; programs in page 0, 2 or 3. frame_roundtrip: bkrepsto ; "
-              "bkreprst ([arrn] and [sp]) with 0..4 active frames holding 18-bit addresses is the identity. Non-trivial = the loop "
+              "bkreprst ([arrn] and [sp]) with 0..4 active frames holding 18-bit addresses is the identity, also (<= 1 active frame) when the visible counter is overwritten between the save and the restore. Non-trivial = the loop "
               "executed more instructions than the program has words / N >= 1 / >= 1 active frame.",
          assumptions=["a nested block repeat never ends on the same instruction as its enclosing block (a repeated single instruction may be the "
                       "last instruction of a block, the rep instruction itself never is)", "interrupts off; bodies contain no control flow and do not touch lc/repc/sp",
@@ -185,7 +187,7 @@ reg(Spec("C17", "c17_reset.cpp", needs=("shim", "optable"),
               "4096; timer: start, configuration with restart, optionally MU off again, a few cycles; DMA: a small external -> DSP transfer "
               "on channel k, the AHBM connection / unit size reprogrammed or not) / whole-register-state pokes / "
               "Run(<=200) of small programs that leave latches, the idle flag, banks and loop frames "
-              "dirty / AHBM host accessors; two real instances whose heap was pre-filled with different byte patterns; mode fresh: Q "
+              "dirty / AHBM host accessors; a quarter of the cases on caller-supplied (zeroed) DSP memory; two real instances whose heap was pre-filled with different byte patterns; mode fresh: Q "
               "straight after construction on both; mode reset: construct;P;Reset;Q vs construct;Reset;Q; the observation (all "
               "registers incl. banks, memory digest, masked read-back of ~140 modelled MMIO registers, host views) and the ordered "
               "callback log are compared after every call of Q; a dozen never-written plain-storage cells are read back before Q. Non-trivial = P dirties >= 3 kinds of state and Q is non-empty "
@@ -202,7 +204,7 @@ reg(Spec("C12", "c12_mmio.cpp", needs=("shim",),
               "DSP data path at the (relocatable) window base; CMDi reads, host SendData / SetSemaphore, and a bounded DMA start "
               "through 0x1DE = 0x40C0. After every op all ~130 side-effect-free documented registers are read back (through "
               "varying paths) and compared, on their documented bits, with the register-map model transcribed from the *.md "
-              "files. Half of the histories concentrate 70% of their writes on one peripheral block (timer 0/1, APBP, AHBM, MIU, DMA, ICU, audio 0/1, the coupling registers) with configuration values built from the documented fields. Non-trivial = an op changed the model; distinct by hash of the op list.",
+              "files. Half of the histories concentrate 70% of their writes on one peripheral block (timer 0/1, APBP, AHBM, MIU, DMA, ICU, audio 0/1, the coupling registers) with configuration values built from the documented fields. Host-side facade queries (DMAChan0Get*High, AHBMGet*) are interleaved with the register accesses: they return channel 0's words / the AHBM field and change no read-back. Non-trivial = an op changed the model; distinct by hash of the op list.",
          assumptions=["timer restart is only written together with a count mode < 4 (watchdog modes are a deliberate ASSERT)",
                       "bits of bit-field registers that no document describes are not compared; 0x0D8 bit 9 (S') is not compared",
                       "the DSP data path is used only while z_page = 0 and base + offset fits 16 bits (otherwise it is not the window)",
@@ -247,7 +249,7 @@ reg(Spec("C07", "c07_interrupts.cpp", needs=("shim", "optable"),
               "distinguishable banks), Exec(eint | dint | reti | retic | rep #n), TimerStart(timer, 1..5 cycles), host SendData, a "
               "one-word DMA start, the audio port running empty after 4096-cycle frames. After every instruction step the full "
               "register state, the two stack words at sp and the controller's pending register are compared with the independent "
-              "ICU + core interrupt model (context stores included). Instruction steps include eint / dint / reti / retic / rep and the program writing st0, st2, mod3 or stt2 with an immediate (writable fields take the value, the pending latches and everything outside the word stay). Non-trivial = history with >= 1 handler entry; distinct by "
+              "ICU + core interrupt model (context stores included). Instruction steps include eint / dint / reti / retic / rep and the program writing st0, st2, mod3 or stt2 with an immediate (writable fields take the value, the pending latches and everything outside the word stay). Vectored handlers also lie in program pages 2 / 3 (all 18 address bits of a vector matter). Non-trivial = history with >= 1 handler entry; distinct by "
               "hash of the op list.",
          assumptions=["when one trigger raises several vectored IRQs the property does not say whose vector is latched: any of them is accepted",
                       "vector addresses and the sled stay below the data area (program and data space share one array)",
@@ -263,7 +265,7 @@ reg(Spec("C06", "c06_slicing.cpp", needs=("shim", "optable"),
               "<0x30000}, MU / pause bits; audio port with 0..16 queued words; n in [1, 20000]; 0..4 host events (SendData, "
               "Set/Clear/MaskSemaphore, software trigger, DataWrite, RecvData) at generated cycle positions. The false-condition self-branch falls through into ten instructions with visible effects before the real idle loop. Three runs from Reset: "
               "one Run per segment, a generated refinement with zero-length calls, n x Run(1) (n <= 5000) or a second refinement; "
-              "full observation + ordered callback log compared at every boundary. Non-trivial = idle self-branch reached and a "
+              "full observation + ordered callback log compared at every boundary. One budget in twelve lies between 66 000 and 206 000 cycles (slices above 2^16). Non-trivial = idle self-branch reached and a "
               "handler ran or an audio frame was delivered; distinct by hash of the encoded case.",
          assumptions=["a self-branch is never the last instruction of an active block repeat nor the target of rep (excluded by the property)",
                       "Reset() between the three runs relies on C17 (Reset equals a fresh machine)"]))
@@ -298,7 +300,9 @@ reg(Spec("C19", "c19_threads.cpp", variant="tsan", needs=("optable", "lib"), wor
               "read; the others stay full after their first send; in half of the schedules the handler reads CMDi only when the "
               "status register flags it ready, in half the host reads only after RecvDataIsReady, in half the APBP interrupt switches the "
               "register context (ic0 = 1, retic), the main program may leave repc != 0, the routine may save / restore st2, the host's "
-              "semaphore handler may acknowledge inside the callback), Sync ops = quiescent points "
+              "semaphore handler may acknowledge inside the callback, the handler may disable a generated subset of the channels' "
+              "interrupts (those channels are then exempt from the delivery / last-value clauses), the request may be routed to the "
+              "vectored line with its handler at 0x10400), Sync ops = quiescent points "
               "(host waits for >= 4000 further DSP cycles, then the last value of every echoed channel must have made the round "
               "trip and be consumed or still flagged ready). Oracle: ThreadSanitizer report "
               "(exit code 66) = violation; per reading thread the values read are sent values in non-decreasing order; after "
